@@ -135,6 +135,13 @@ theorem format_shortest (s : Bytes) (m : Nat) (h : Spec.Amount.parse s = some m)
     (hd : ∀ rest, s ≠ dot :: rest) : (Spec.Amount.format m).length ≤ s.length :=
   (Spec.Amount.format_length_le_succ h).2 hd
 
+/-- and it is the ONLY spelling of minimal length among those (so the output is canonical in the strict
+    sense: one amount, one string) -/
+theorem format_unique_shortest (s : Bytes) (m : Nat) (h : Spec.Amount.parse s = some m)
+    (hd : ∀ rest, s ≠ dot :: rest) (hl : s.length ≤ (Spec.Amount.format m).length) :
+    s = Spec.Amount.format m :=
+  Spec.Amount.format_unique_shortest h hd hl
+
 /-- and in general a spelling can be shorter by at most the one omitted leading `0` -/
 theorem format_shortest_slack (s : Bytes) (m : Nat) (h : Spec.Amount.parse s = some m) :
     (Spec.Amount.format m).length ≤ s.length + 1 :=
